@@ -142,7 +142,8 @@ namespace Givaro {
     inline Montgomery<int32_t>::Element&
     Montgomery<int32_t>::div (Element& r, const Element& a, const Element& b) const
     {
-        return mulin( inv(r,b), a );
+        Element ib;
+        return mul(r, a, inv(ib, b));
     }
 
     inline Montgomery<int32_t>::Element&
